@@ -24,7 +24,8 @@ def written_files(run, tier):
     combos = [((9, 10, 70), 32, (4, 4, -1)), ((9, 6, 20), 32, (8, 8, 16)), ((18, 17, 9), 32, (16, 16, 4)),
               ((5, 9, 130), 16, (4, 4, -1)), ((6, 5, 300), 8, (4, 4, -1)),
               ((37, 20, 9), 8, (16, 64, 4)), ((70, 19, 6), 8, (64, 16, 4)), ((13, 10, 40), 32, (4, 8, 32)),        # z-slice layouts that are not square, two block rows
-              ((9, 130, 6), Fr(1, 2), (64, 256, 4))]      # a z-slice layout at a rate below one bit per voxel
+              ((9, 130, 6), Fr(1, 2), (64, 256, 4)),      # a z-slice layout at a rate below one bit per voxel
+              ((130, 6, 5), 8, (64, 16, 4))]              # more than 100 inlines in a layout whose blocks are taller than 4
     if tier == 'thorough':
         combos += [((10, 9, 40), 32, (8, 4, 32)), ((9, 17, 20), 32, (4, 16, 16)),
                    ((5, 6, 600), 4, (4, 4, -1)), ((5, 6, 1100), 2, (4, 4, -1)), ((66, 65, 9), 2, (64, 64, 4)),
@@ -41,6 +42,8 @@ def written_files(run, tier):
             il = (np.arange(shape[0]) - 2) * 2
             xl = (np.arange(shape[1]) - 3) * 3
             z0 = -2.0 * min(shape[2] // 2, 4 if bs[2] in (-1, 4) else bs[2])
+        if k % 5 == 4:      # six-digit line numbers (a relative tolerance of 1e-5 reaches the neighbouring line)
+            il, xl = 100000 + np.arange(shape[0]), 250000 + 2 * np.arange(shape[1])
         if k % 3 == 2:      # descending line axes
             il, xl = il[::-1].copy(), xl[::-1].copy()
         try:
